@@ -87,10 +87,19 @@ def check_trimmed(ctx: Ctx, dtype):
 def check_krum(ctx: Ctx, dtype):
     rng = ctx.rng
     f = rng.choice([0, 1, 1, 2])
-    m = rng.randint(f + 3, f + 7)
+    big = rng.random() < 0.25
+    if big:
+        # many rows sharing a large common component (distances tiny relative to the norms): the regime where a
+        # matmul-based distance computation loses all its digits
+        f = rng.choice([1, 3, 8])
+        m = rng.randint(max(f + 3, 26), 40)
+    else:
+        m = rng.randint(f + 3, f + 7)
     k = rng.randint(1, max(1, m - f - 2))
-    n = rng.choice([1, 2, 3, 4])
-    H = honest_cluster(rng, m, n, spread=rng.choice([2, 5, 9]))
+    n = rng.choice([1, 2, 3, 4]) if not big else rng.choice([4, 8])
+    H = honest_cluster(rng, m, n, spread=rng.choice([2, 5, 9]),
+                       center=[rng.choice([-1, 1]) * rng.randint(900, 4000) for _ in range(n)] if big else None)
+    ctx.count("krum_many_rows", big)
     nb = rng.randint(0, f)
     J, bad = corrupt(rng, H, nb, dtype)
     if rng.random() < 0.3:
@@ -125,8 +134,10 @@ def check_krum(ctx: Ctx, dtype):
         return
     wm, gap = fr_list(rep[1]), fr_list([rep[3]])[0]
     selm = sorted(i for i, v in enumerate(wm) if v != 0)
-    scale = max(maxabs([v for r in J for v in r]), Fr(1))
-    if gap <= Fr(1024 * ulp(dtype)) * scale * m * n:
+    # integer data: differences are exact in floating point, so distances carry only a relative rounding error
+    dmax2 = max(sum((a - b) ** 2 for a, b in zip(r1, r2)) for r1 in J for r2 in J)
+    dmax = Fr(int(float(dmax2) ** 0.5) + 1)
+    if gap <= Fr(256 * ulp(dtype)) * dmax * m * n:
         ctx.count("krum_skipped_tie")
         return
     ctx.count("krum_compared")
